@@ -40,6 +40,9 @@ LAYOUTS = {
     'all-required': [('x', 'string', True), ('y', 'string', True)],
     # declaration order differs from field-number order
     'numbers-descending': [('scope', 'string', False, 9), ('name', 'string', True, 5), ('tail', 'string', True, 3), ('extra', 'int32', False, 1)],
+    # request fields named like the call-level control parameters (wave 7): they are request fields all the same
+    'control-parameter-names': [('item_id', 'string', False), ('metadata', 'string', False), ('name', 'string', True),
+                                ('timeout', 'int32', False), ('retry', 'bool', True), ('request', 'string', False)],
     'number-inserted-later': [('parent', 'string', True, 1), ('from', 'string', False, 7), ('item_id', 'string', True, 2), ('filter', 'string', False, 3)],
 }
 
